@@ -15,7 +15,7 @@ RULE = ("three-phase networks dimensioned so constraints bind in a good share of
         "on/off x {no estimator, SimpleRampdown, stub estimator} x continuous_inc; non-trivial = a call with a binding "
         "constraint (some session got less than its own bound) and >=2 active sessions; distinct = history signature + options")
 PROBES = ["binding_call", "nearly_finished_session", "estimator_bound_binding", "uninterrupted_min_applied", "crossed_session_ids",
-          "resumed", "rr_call", "greedy_call", "finite_rate_station", "removed_finished_session", "constraint_free", "call_after_reconfig", "knife_edge_world", "sliver_world", "pilot_below_bisection_resolution", "sliver_pilot_next_to_large_pilot", "knife_edge_sum_rejected", "sorted_recompute_interval_not_1"]
+          "resumed", "rr_call", "greedy_call", "finite_rate_station", "removed_finished_session", "constraint_free", "call_after_reconfig", "knife_edge_world", "sliver_world", "pilot_below_bisection_resolution", "sliver_pilot_next_to_large_pilot", "knife_edge_sum_rejected", "sorted_recompute_interval_not_1", "algorithm_retuned_mid_run"]
 FAULT_DIMENSION = ("crash + rerun (estimator state carried across a resume); operator changes a constraint limit between two "
                    "periods (update_constraint); no fault alters the algorithm")
 ASSUMPTIONS = ["network tolerances >= the algorithms' hard-wired 1e-5 / 1e-7 (the algorithm-side check does not read the network's)",
@@ -104,6 +104,14 @@ def gen(rs, tier):
         for s in sc["network"]["stations"]:
             if s["evse"]["type"] == "EVSE" and inc < 0.5:
                 s["evse"]["max"] = min(s["evse"]["max"], 8)
+    rrt = world.sub(rs, "retune")
+    if sc["party"].get("estimator", "none") != "none" and rrt.random() < 0.15:
+        # the estimator is handed over at construction, estimation is switched on only later in the run (public attribute)
+        sc["party"]["estimate_late"] = True
+        sc["party"]["retune"] = {"at_call": rrt.randint(2, 6), "set": {"estimate_max_rate": True}}
+    elif sc["party"]["kind"] == "rr" and rrt.random() < 0.15:
+        cur_ = sc["party"].get("continuous_inc", 1)
+        sc["party"]["retune"] = {"at_call": rrt.randint(2, 6), "set": {"continuous_inc": rrt.choice([x_ for x_ in (0.5, 1, 3) if x_ != cur_])}}
     return sc
 
 
@@ -256,6 +264,7 @@ def check(sc):
         if binding and len(truth) >= 2 and cons:
             out.probe("binding_call")
             out.nontrivial = True
+    out.probe("algorithm_retuned_mid_run", tr.fault_counts.get("algorithm_retuned", 0))
     nwarn = [msg for cat, msg in tr.warnings if "Invalid schedule provided" in msg]
     if nwarn:
         out.add("C07/infeasible_schedule_warning", nwarn[0][:200])
